@@ -205,3 +205,95 @@ func allowedLoopFact(f Fact) bool {
 	}
 	return false
 }
+
+// c05ErrorNotDropped: on the block store / revert / prune paths the error result of a call is never left unused — an
+// error that is overwritten before it is tested (`err = a(); err = b(); if err != nil`) lets a failed index write commit
+// together with the rest of the batch. Explicit discards of Close()-like calls are the only accepted exception.
+func c05ErrorNotDropped(c *Ctx) {
+	p := c.P
+	n, bad := 0, 0
+	for _, fn := range p.sortedFuncs() {
+		pr := pkgRelOf(fn)
+		if !(pr == "core" || pr == "blockchain/statebackend" || pr == "blockchain" || pr == "core/state" || pr == "core/deprecatedstate" || pr == "pruner") || fn.Origin() != nil || strings.HasSuffix(p.Pos(fnPos(fn)), "_test.go") {
+			continue
+		}
+		for _, s := range sitesOf(fn) {
+			call, ok := s.Instr.(*ssa.Call)
+			if !ok {
+				continue // go / defer: result unavailable by construction
+			}
+			sig := call.Call.Signature()
+			if sig.Results().Len() == 0 || sig.Results().At(sig.Results().Len()-1).Type().String() != "error" {
+				continue
+			}
+			nm := ""
+			if s.Callee != nil {
+				nm = s.Callee.Name()
+			} else if s.Method != nil {
+				nm = s.Method.Name()
+			}
+			// database writes only: writer methods of the db packages / typed buckets, and core's Write*/Delete* accessors
+			cn := s.CalleeName()
+			isDBWrite := false
+			switch nm {
+			case "Put", "Delete", "DeleteRange", "DeletePrefix", "Write":
+				if s.Callee != nil && strings.HasPrefix(pkgRelOf(s.Callee), "db") {
+					isDBWrite = true
+				}
+				if s.Method != nil && (strings.Contains(typeShort(s.Recv.Type()), "db.") || strings.Contains(cn, "db.")) {
+					isDBWrite = true
+				}
+			}
+			if s.Callee != nil && pkgRelOf(s.Callee) == "core" && (strings.HasPrefix(nm, "Write") || strings.HasPrefix(nm, "Delete")) {
+				isDBWrite = true
+			}
+			if !isDBWrite {
+				continue
+			}
+			n++
+			var errVal ssa.Value
+			if sig.Results().Len() == 1 {
+				errVal = call
+			} else {
+				for _, r := range *call.Referrers() {
+					if ex, isEx := r.(*ssa.Extract); isEx && ex.Index == sig.Results().Len()-1 {
+						errVal = ex
+					}
+				}
+			}
+			// used = tested, returned, stored or passed on directly; a φ that merges it with the error of ANOTHER call
+			// overwrites it on that edge
+			used := false
+			if errVal != nil {
+				for _, r := range *errVal.Referrers() {
+					switch x := r.(type) {
+					case *ssa.DebugRef:
+					case *ssa.Phi:
+						clean := true
+						for _, e := range x.Edges {
+							if e == errVal || isNilConst(e) || e == ssa.Value(x) {
+								continue
+							}
+							clean = false
+						}
+						if clean {
+							used = true
+						}
+					default:
+						used = true
+					}
+				}
+			}
+			if !used {
+				bad++
+				c.viol("error-not-dropped", fmt.Sprintf("%s → %s", qname(fn), s.CalleeName()), p.Pos(s.Pos()), "the error returned by this call is never looked at (overwritten or discarded): a failed write on the store/revert path would be committed with the rest of the batch")
+			}
+		}
+	}
+	if bad == 0 {
+		c.ok("error-not-dropped", fmt.Sprintf("%d error-returning calls on the store/revert/prune packages", n), "", "every error result is used")
+	}
+	if n < 100 {
+		c.und("error-not-dropped", "scope", "", fmt.Sprintf("only %d error-returning calls found", n))
+	}
+}
